@@ -55,6 +55,12 @@ def gen_ti_case(rng, tier):
         elif r < 0.6:
             o["path"] = "images/missing.img"
         ops.append(o)
+        if rng.random() < 0.25:
+            # the file is replaced by other content of the SAME size (and, on SimFS, the same mtime) between two computations
+            rel2, size2 = pick(rng, files)
+            ops.append({"op": "fs_file", "path": "/sim/tree/" + rel2, "size": size2, "seed": rng.randint(0, 10 ** 9)})
+            ops.append({"op": "ti_checksum_add", "path": decorate(rng, rel2), "ctype": o["ctype"], "root_dir": "/sim/tree"})
+            ops.append({"op": "ti_checksum_add", "path": rel2, "ctype": pick(rng, ALGOS), "root_dir": "/sim/tree"})
     path = "/sim/d/.treeinfo"
     ops.append({"op": "dump", "path": path})
     if rng.random() < 0.6:
